@@ -320,6 +320,7 @@ func c16(c *eng.Ctx) {
 	}
 
 	c16AdmitsValidated(c)
+	c16Preconditions(c)
 	c16Parsers(c)
 	c16NilOnError(c)
 	c16Ranges(c)
@@ -1045,4 +1046,126 @@ func c16AdmitsValidated(c *eng.Ctx) {
 		})
 		c.Check("R7", v, "the submitted object is what is validated", ci.Pos(), from, "")
 	}
+}
+
+
+// ---- R8: preconditions of the client library ----------------------------------------------
+
+// c16Preconditions: the data plane hands fields of the object to client-go, which refuses
+// some combinations; validation must refuse them first.
+//   P1  transport.TLSConfigFor fails when a CA is given together with the insecure flag (the
+//       guard is located in the dependency's own SSA, so the precondition is read from the
+//       code that enforces it); buildClusterRESTConfig copies ClientConfig.CAData and
+//       ClientConfig.Insecure into that configuration.
+//   P2  rest.DefaultServerURL / the dispatcher need a URL with a host: "https://" parses but
+//       has none.
+func c16Preconditions(c *eng.Ctx) {
+	c.Rule("R8", "preconditions of the client library are validated: caData together with insecure is rejected (client-go's TLSConfigFor refuses it), and an endpoint whose parsed URL has no host is rejected (client-go's server URL and the dispatcher need one)", 2)
+	// --- P1: locate the guard in the dependency
+	p1 := false
+	if dep := c.W.Func("k8s.io/client-go/transport", "TLSConfigFor"); dep != nil && dep.Blocks != nil {
+		eng.Instrs(dep, func(ins ssa.Instruction) {
+			r, ok := ins.(*ssa.Return)
+			if !ok || len(r.Results) != 2 || eng.IsNilConst(r.Results[1]) {
+				return
+			}
+			insecure, hasCA := false, false
+			for _, g := range eng.GuardsOf(r) {
+				rel := g.Rel()
+				if eng.FieldLoadOf(rel.X, "k8s.io/client-go/transport.TLSConfig", "Insecure") && eng.IsBoolConst(rel.Y, true) && rel.Op == token.EQL {
+					insecure = true
+				}
+				if cc, _ := eng.CallResultOf(rel.X); cc != nil && eng.MethodNameIs(cc, "HasCA") && eng.IsBoolConst(rel.Y, true) && rel.Op == token.EQL {
+					hasCA = true
+				}
+			}
+			if insecure && hasCA {
+				p1 = true
+			}
+		})
+	}
+	// the consumer passes both fields on
+	passes := false
+	if b := c.MustFunc(pkgClusters, "buildClusterRESTConfig"); b != nil {
+		ca, ins := false, false
+		for _, st := range eng.StoresToField([]*ssa.Function{b}, "k8s.io/client-go/rest.TLSClientConfig", "CAData") {
+			if eng.FieldLoadOf(st.Val, pkgV1alpha1+".ClientConfig", "CAData") {
+				ca = true
+			}
+		}
+		for _, st := range eng.StoresToField([]*ssa.Function{b}, "k8s.io/client-go/rest.TLSClientConfig", "Insecure") {
+			if eng.FieldLoadOf(st.Val, pkgV1alpha1+".ClientConfig", "Insecure") {
+				ins = true
+			}
+		}
+		passes = ca && ins
+	}
+	if !p1 || !passes {
+		c.Note("R8/P1 not applicable on this tree: dependency guard found=%v, consumer passes caData+insecure=%v", p1, passes)
+		c.Pass("R8", nil, "caData with insecure is rejected", 0, "precondition not present in the dependency / not exercised by the consumer")
+	} else {
+		ok := false
+		for _, fn := range c.W.FuncsOf(pkgValidation) {
+			for _, ci := range eng.Calls(fn) {
+				if !c16IsReject(ci) {
+					continue
+				}
+				ins, ca := false, false
+				for _, f := range eng.FactsAt(ci, 1) {
+					_ = f
+				}
+				for _, g := range eng.GuardsOf(ci) {
+					rel := g.Rel()
+					if eng.FieldLoadOf(rel.X, pkgV1alpha1+".ClientConfig", "Insecure") && ((eng.IsBoolConst(rel.Y, true) && rel.Op == token.EQL) || (eng.IsBoolConst(rel.Y, false) && rel.Op == token.NEQ)) {
+						ins = true
+					}
+					if lc, isC := rel.X.(*ssa.Call); isC && isBuiltin(lc, "len") && eng.FieldLoadOf(lc.Call.Args[0], pkgV1alpha1+".ClientConfig", "CAData") {
+						if z, isZ := eng.IntConst(rel.Y); isZ && z == 0 && (rel.Op == token.GTR || rel.Op == token.NEQ) {
+							ca = true
+						}
+					}
+				}
+				if ins && ca {
+					ok = true
+				}
+			}
+		}
+		c.Check("R8", c.W.Func(pkgValidation, "ValidateClientConfig"), "caData with insecure is rejected", 0, ok,
+			"clientConfig {insecure: true, caData: <valid>} with an https endpoint passes validation, but client-go's transport.TLSConfigFor refuses a CA together with the insecure flag: CreateClusterInfo / the endpoint transports fail for an admitted object")
+	}
+	// --- P2: empty host
+	okHost := false
+	var vs *ssa.Function
+	for _, fn := range c.W.FuncsOf(pkgValidation) {
+		for _, pc := range eng.CallsTo(fn, "net/url.Parse") {
+			call, isCall := pc.(*ssa.Call)
+			if !isCall {
+				continue
+			}
+			vs = fn
+			for _, ci := range eng.Calls(fn) {
+				if !c16IsReject(ci) {
+					continue
+				}
+				for _, g := range eng.GuardsOf(ci) {
+					rel := g.Rel()
+					x := rel.X
+					isEmptyCmp := false
+					if lc, isC := x.(*ssa.Call); isC && isBuiltin(lc, "len") {
+						x = lc.Call.Args[0]
+						if z, isZ := eng.IntConst(rel.Y); isZ && z == 0 && (rel.Op == token.EQL || rel.Op == token.LEQ) {
+							isEmptyCmp = true
+						}
+					} else if k, isK := eng.StringConst(rel.Y); isK && k == "" && rel.Op == token.EQL {
+						isEmptyCmp = true
+					}
+					if isEmptyCmp && eng.FieldLoadOf(x, "net/url.URL", "Host") && c.Slicer().DerivesFrom(x, func(v ssa.Value) bool { cc, _ := eng.CallResultOf(v); return cc == call }) {
+						okHost = true
+					}
+				}
+			}
+		}
+	}
+	c.Check("R8", vs, "endpoint without a host is rejected", 0, okHost,
+		"the endpoint \"https://\" parses (url.Parse succeeds) but has no host: client-go's DefaultServerURL refuses it (\"host must be a URL or a host:port pair\"), so the endpoint's clientset cannot be built and Sync of the admitted object fails")
 }
